@@ -1,4 +1,334 @@
-import Poulpy.Model.Encoding
+/-
+C08 — limb representation: normalisation, shifts and integer encoding are exact.
+
+All theorems are about the definitions the driver executes (`Model/Digit`, `ZnxNorm`, `VecNorm`,
+`Encoding`); `bits = 64` is the `i64` family, `bits = 128` the `i128` (NTT120 big accumulator) one.
+Head-room: `NormL.HeadRoom bits b lsh H` = `1 ≤ bits`, `lsh < b ≤ bits`, `0 ≤ H`,
+`H + 2^b + 4 ≤ 2^(bits-1)`; inputs are bounded by `H` in absolute value (for `i64`: `H = 2^62` for
+every `b ≤ 61`, `H = 2^62 - 4` for `b = 62`); they need not be normalised.
+`TorusNear X px Y py`: `|X/2^px − Y/2^py| ≤ 2^-px` on R/Z;  `TorusEq`: equality on R/Z.
+
+/- FULL STATEMENT (not proved — false for the pinned code, see docs/C08.md "Defects"):
+   `normalize_inter_value`: the statement of `normalize_inter_value_partial` without the hypothesis
+   `NoGap` (`-limbs_offset ≤ res_size`); refuted by `normalize_inter_value_counterexample`.
+   `rsh_value` (all `k`): as `rsh_value_partial` without `⌈k/b⌉ ≤ res_size`; refuted by
+   `rsh_value_counterexample`.
+   `rsh_assign_value` (all `k`): `vec_znx_rsh_assign` represents `a·2^-k` within one unit; false for
+   `⌈k/b⌉ ≥ 2` (`rsh_assign_value_counterexample`) and a panic for `⌈k/b⌉ > size`
+   (`rsh_assign_panics_beyond_size`).
+   `big_normalize_sub_value` (NTT120, cross radix): `res' = res − a·2^off` within one unit; false for
+   negative offsets (`big_normalize_sub_cross_counterexample`).
+   `normalize_cross_value`: for `res_base2k ≠ a_base2k`, outside the gap region
+   (`-limbs_offset·a_base2k ≤ res_size·res_base2k`), `normalizeCrossCoef 64 .plain rb rs off ab a`
+   is `TorusNear` `a·2^off` with one unit of `2^-(rb·rs)` and exact with enough limbs.  Only
+   `normalize_cross_value_partial` (the all-shifted-out case and the output shape) is proved; the
+   executable model is fully corresponded (0 disagreements over all radix pairs 1..62²).
+   `encode_decode`: `decodeCoefVec 64 b k (encodeCoefI64 b k size v) = ok v'` with `v' ≡ v (mod 2^k)` and
+   `v' = v` when the balanced expansion fits.  Proved here: the encode half (`encode_value`: the limbs
+   represent `v·2^-k` exactly, digits balanced, `encode_frame`); the decode half is covered by the
+   round-trip oracle over every (b,k) only. -/
+-/
+import Poulpy.Lemmas.NormInter
+
 namespace C08
-theorem placeholder : getDigitW 64 3 (-4) = -4 := by decide
+open NormL
+
+/-! ### digits and carries -/
+
+/-- `get_digit(b, x) + get_carry(b, x, digit)·2^b = x` whenever `|x| < 2^(bits-1) − 2^(b-1)`
+(the exact head-room under which `wrapping_sub` does not wrap). -/
+theorem digit_carry {bits b : Nat} (hb : 1 ≤ b) (hbb : b ≤ bits) (x : Int)
+    (hx : |x| < 2 ^ (bits - 1) - 2 ^ (b - 1)) :
+    getDigitW bits b x + getCarryW bits b x (getDigitW bits b x) * 2 ^ b = x := by
+  rw [getDigitW_eq_bmod hb hbb]
+  have h1 : |x - bmod b x| < 2 ^ (bits - 1) := by
+    have := abs_sub x (bmod b x); have := bmod_abs_le hb x; linarith
+  rw [getCarryW_eq_bcarry (by omega) h1]
+  exact bmod_add_bcarry b x
+
+example : getDigitW 64 5 1000 + getCarryW 64 5 1000 (getDigitW 64 5 1000) * 2 ^ 5 = 1000 :=
+  digit_carry (by norm_num) (by norm_num) 1000 (by norm_num)
+
+/-- every digit lies in `[-2^(b-1), 2^(b-1))`, for every input (no head-room needed) -/
+theorem digit_range {bits b : Nat} (hb : 1 ≤ b) (hbb : b ≤ bits) (x : Int) : Balanced b (getDigitW bits b x) := by
+  rw [getDigitW_eq_bmod hb hbb]; exact bmod_range hb x
+
+example : Balanced 62 (getDigitW 64 62 (2 ^ 63 - 1)) := digit_range (by norm_num) (by norm_num) _
+
+/-- the head-room of `digit_carry` is sharp: at the first excluded value `x = 2^63 − 2^(b-1)` (here
+`b = 2`) the subtraction wraps and the identity fails. -/
+theorem digit_carry_boundary_counterexample :
+    ¬ (getDigitW 64 2 (2 ^ 63 - 2) + getCarryW 64 2 (2 ^ 63 - 2) (getDigitW 64 2 (2 ^ 63 - 2)) * 2 ^ 2 = 2 ^ 63 - 2) := by
+  decide
+
+example : getCarryW 64 2 (2 ^ 63 - 2) (getDigitW 64 2 (2 ^ 63 - 2)) = -(2 ^ 61) := by decide
+
+/-! ### step-kernel contracts -/
+
+/-- first step: `a·2^lsh = digit + carry·2^b`, digit balanced, carry within `H + 3` -/
+theorem first_step_contract {bits b lsh : Nat} {H : Int} (hr : HeadRoom bits b lsh H) {a : Int} (ha : |a| ≤ H) :
+    a * 2 ^ lsh = (firstStepS bits b lsh a).1 + (firstStepS bits b lsh a).2 * 2 ^ b ∧
+    Balanced b (firstStepS bits b lsh a).1 ∧ |(firstStepS bits b lsh a).2| ≤ H + 3 :=
+  firstStepS_spec hr ha
+
+/-- middle step: `a·2^lsh + c_in = digit + c_out·2^b`, digit balanced, head-room preserved -/
+theorem middle_step_contract {bits b lsh : Nat} {H : Int} (hr : HeadRoom bits b lsh H) {a c : Int}
+    (ha : |a| ≤ H) (hc : |c| ≤ H + 3) :
+    a * 2 ^ lsh + c = (middleStepS bits b lsh a c).1 + (middleStepS bits b lsh a c).2 * 2 ^ b ∧
+    Balanced b (middleStepS bits b lsh a c).1 ∧ |(middleStepS bits b lsh a c).2| ≤ H + 3 :=
+  middleStepS_spec hr ha hc
+
+/-- final step: `a·2^lsh + c_in ≡ digit (mod 2^b)`, digit balanced -/
+theorem final_step_contract {bits b lsh : Nat} {H : Int} (hr : HeadRoom bits b lsh H) {a c : Int}
+    (ha : |a| ≤ H) (hc : |c| ≤ H + 3) :
+    (∃ q : Int, a * 2 ^ lsh + c = finalStepS bits b lsh a c + q * 2 ^ b) ∧ Balanced b (finalStepS bits b lsh a c) :=
+  finalStepS_spec hr ha hc
+
+/-- the `i64` head-room for radix `2^50`, shift 7, inputs up to `2^62` -/
+theorem headRoom_example : HeadRoom 64 50 7 (2 ^ 62) :=
+  ⟨by norm_num, by norm_num, by norm_num, by norm_num, by norm_num⟩
+
+example : (2 ^ 62 - 1 : Int) * 2 ^ 7 + 5 =
+    (middleStepS 64 50 7 (2 ^ 62 - 1) 5).1 + (middleStepS 64 50 7 (2 ^ 62 - 1) 5).2 * 2 ^ 50 :=
+  (middle_step_contract headRoom_example (by norm_num) (by norm_num)).1
+
+/-- carry-chain value lemma for a run of middle steps over a whole limb block -/
+theorem middle_run_value {bits b lsh : Nat} {H : Int} (hr : HeadRoom bits b lsh H) (l : List Int)
+    (hl : ∀ x ∈ l, |x| ≤ H) (c0 : Int) (hc0 : |c0| ≤ H + 3) :
+    valI b (middleRun bits b lsh l c0).1 + (middleRun bits b lsh l c0).2 * 2 ^ (b * l.length)
+      = valI b l * 2 ^ lsh + c0 ∧
+    (∀ d ∈ (middleRun bits b lsh l c0).1, Balanced b d) :=
+  let h := middleRun_spec hr l hl c0 hc0; ⟨h.1, h.2.2.1⟩
+
+example : valI 50 (middleRun 64 50 7 [2 ^ 62, -3] 0).1 + (middleRun 64 50 7 [2 ^ 62, -3] 0).2 * 2 ^ (50 * 2)
+    = valI 50 [2 ^ 62, -3] * 2 ^ 7 + 0 :=
+  (middle_run_value headRoom_example _ (by intro x hx; simp at hx; rcases hx with rfl | rfl <;> norm_num) 0 (by norm_num)).1
+
+/-! ### vec_znx_normalize, same radix -/
+
+/-- the region in which the pinned code is correct: the shifted input does not lie entirely below
+the output (`-limbs_offset ≤ res_size`) -/
+def NoGap (b rs : Nat) (off : Int) : Prop := -(splitOffset b off).2 ≤ (rs : Int)
+
+instance (b rs : Nat) (off : Int) : Decidable (NoGap b rs off) := by unfold NoGap; infer_instance
+
+/-- **`vec_znx_normalize` / `vec_znx_big_normalize`, same radix** (`bits = 64`: VecZnx and the FFT64
+accumulator; `bits = 128`: the kernels of the NTT120 accumulator): for every radix, size, offset and
+un-normalised input within head-room, outside the gap region, the output has `rs` balanced digits,
+represents `a·2^off` on the torus within one unit of its last limb, and exactly when it has enough
+limbs (`b·a_size − off ≤ b·rs`). -/
+theorem normalize_inter_value_partial {bits b : Nat} {H : Int} (hr : HeadRoom bits b 0 H)
+    (rs : Nat) (off : Int) (a : List Int) (ha : ∀ x ∈ a, |x| ≤ H) (hng : NoGap b rs off) :
+    (normalizeInterCoef bits b rs off a).length = rs ∧
+    (∀ d ∈ normalizeInterCoef bits b rs off a, Balanced b d) ∧
+    TorusNear (valI b (normalizeInterCoef bits b rs off a)) (b * rs)
+      (valI b a * 2 ^ off.toNat) (b * a.length + (-off).toNat) ∧
+    (((b * a.length : Nat) : Int) - off ≤ (b * rs : Nat) →
+      TorusEq (valI b (normalizeInterCoef bits b rs off a)) (b * rs)
+        (valI b a * 2 ^ off.toNat) (b * a.length + (-off).toNat)) :=
+  normalizeInterCoef_value hr rs off a ha hng
+
+/-- non-vacuity: radix 2^50, three un-normalised limbs at the head-room boundary, offset −57 into two limbs -/
+example : TorusNear (valI 50 (normalizeInterCoef 64 50 2 (-57) [2 ^ 62, -(2 ^ 62), 12345])) (50 * 2)
+    (valI 50 [2 ^ 62, -(2 ^ 62), 12345] * 2 ^ (-57 : Int).toNat) (50 * 3 + (57 : Int).toNat) :=
+  (normalize_inter_value_partial (bits := 64) (b := 50) (H := 2 ^ 62)
+    ⟨by norm_num, by norm_num, by norm_num, by norm_num, by norm_num⟩ 2 (-57) _
+    (by intro x hx; simp at hx; rcases hx with rfl | rfl | rfl <;> norm_num) (by decide)).2.2.1
+
+/-- the output of the NTT120 path is the same list truncated to `i64`: a no-op on balanced digits -/
+theorem big_normalize128_inter_value_partial {b : Nat} {H : Int} (hr : HeadRoom 128 b 0 H) (hb : b ≤ 63)
+    (rs : Nat) (off : Int) (a : List Int) (ha : ∀ x ∈ a, |x| ≤ H) (hng : NoGap b rs off) :
+    bigNormalizeCoef128 b rs off b a = some (normalizeInterCoef 128 b rs off a) ∧
+    TorusNear (valI b (normalizeInterCoef 128 b rs off a)) (b * rs)
+      (valI b a * 2 ^ off.toNat) (b * a.length + (-off).toNat) := by
+  have h := normalizeInterCoef_value hr rs off a ha hng
+  refine ⟨?_, h.2.2.1⟩
+  unfold bigNormalizeCoef128
+  simp only [if_true]
+  congr 1
+  have hw : ∀ d ∈ normalizeInterCoef 128 b rs off a, w64 d = id d := by
+    intro d hd
+    have hbal := (h.2.1 d hd)
+    have h1 : (2 : Int) ^ (b - 1) ≤ 2 ^ 62 := two_pow_le (by omega)
+    unfold w64
+    rw [Int.emod_eq_of_lt (by have := hbal.1; linarith) (by have := hbal.2; linarith)]; simp
+  rw [List.map_congr_left hw, List.map_id]
+
+example : NoGap 50 2 (-57) := by decide
+
+/-- **the full statement is false for the pinned code** (defect `vec_znx_normalize/rsh:gap-region`):
+`b = 3, a = [-4], res_size = 1, offset = -4` gives `[-2]`, i.e. `-2/8`, where `a·2^-4 = -1/32`
+must round to `0` or `±1/8`. -/
+theorem normalize_inter_value_counterexample :
+    ¬ TorusNear (valI 3 (normalizeInterCoef 64 3 1 (-4) [-4])) (3 * 1)
+        (valI 3 [-4] * 2 ^ (-4 : Int).toNat) (3 * 1 + (4 : Int).toNat) := by
+  have h : normalizeInterCoef 64 3 1 (-4) [-4] = [-2] := by decide
+  rw [h]
+  rintro ⟨k, e, h1, h2⟩
+  simp [valI] at h1 h2
+  have := abs_le.mp h2
+  omega
+
+example : ¬ NoGap 3 1 (-4) := by decide
+
+/-- **the full statement holds for the proposed repair** (docs/C08.md, "Repair"): with `gap` extra
+carry-only steps over the gap, the same-radix normalisation represents `a·2^off` within one unit of
+the last output limb for *every* offset (no `NoGap` hypothesis); digits balanced. -/
+theorem normalize_inter_value_repaired {bits b : Nat} {H : Int} (hr : HeadRoom bits b 0 H)
+    (rs : Nat) (hrs : 1 ≤ rs) (off : Int) (a : List Int) (ha : ∀ x ∈ a, |x| ≤ H) :
+    (normalizeInterCoefRepaired bits b rs off a).length = rs ∧
+    (∀ d ∈ normalizeInterCoefRepaired bits b rs off a, Balanced b d) ∧
+    TorusNear (valI b (normalizeInterCoefRepaired bits b rs off a)) (b * rs)
+      (valI b a * 2 ^ off.toNat) (b * a.length + (-off).toNat) :=
+  normalizeInterCoefRepaired_value hr rs hrs off a ha
+
+/-- on the witness of the defect the repaired routine returns the correct rounding `0` -/
+example : normalizeInterCoefRepaired 64 3 1 (-4) [-4] = [0] := by decide
+
+/-! ### vec_znx_normalize_assign -/
+
+/-- **`vec_znx_normalize_assign`**: same length, balanced digits, and exactly the same torus element -/
+theorem normalize_assign_value {b : Nat} {H : Int} (hr : HeadRoom 64 b 0 H) (a : List Int)
+    (ha : ∀ x ∈ a, |x| ≤ H) :
+    (normalizeAssignCoef b a).length = a.length ∧ (∀ d ∈ normalizeAssignCoef b a, Balanced b d) ∧
+    TorusEq (valI b (normalizeAssignCoef b a)) (b * a.length) (valI b a) (b * a.length) := by
+  unfold normalizeAssignCoef
+  rw [assignRun_eq hr a ha]
+  have h0 : |(0 : Int)| ≤ H + 3 := by have := hr.hH0; simp; linarith
+  obtain ⟨⟨q, hq⟩, hl, hb⟩ := finalTopRun_spec hr a ha 0 h0
+  refine ⟨hl, hb, -q, ?_⟩
+  simp only [pow_zero, mul_one, add_zero] at hq
+  have : (2 : Int) ^ (b * a.length + b * a.length) = 2 ^ (b * a.length) * 2 ^ (b * a.length) := by rw [pow_add]
+  rw [this]
+  linear_combination (2 ^ (b * a.length)) * hq
+
+example : TorusEq (valI 17 (normalizeAssignCoef 17 [2 ^ 62, -(2 ^ 40), 7])) (17 * 3) (valI 17 [2 ^ 62, -(2 ^ 40), 7]) (17 * 3) :=
+  (normalize_assign_value (b := 17) (H := 2 ^ 62) ⟨by norm_num, by norm_num, by norm_num, by norm_num, by norm_num⟩ _
+    (by intro x hx; simp at hx; rcases hx with rfl | rfl | rfl <;> norm_num)).2.2
+
+/-! ### encoding -/
+
+/-- **`encode_vec_i64` / `encode_coeff_i64`** (one coefficient): for `1 ≤ k ≤ size·b` the limbs are
+balanced and represent `v·2^-k` exactly on the torus (`valI ≡ v·2^(size·b−k)  mod 2^(size·b)`),
+limbs beyond `⌈k/b⌉` are zero. -/
+theorem encode_value {b k aSize : Nat} {H : Int} (hr : HeadRoom 64 b (encLsh b k) H) (hk : 1 ≤ k)
+    (hsz : encSize b k ≤ aSize) (v : Int) (hv : |v| ≤ H) :
+    (encodeCoefI64 b k aSize v).length = aSize ∧ (∀ d ∈ encodeCoefI64 b k aSize v, Balanced b d) ∧
+    ∃ q : Int, valI b ((encodeCoefI64 b k aSize v).take (encSize b k)) + q * 2 ^ (b * encSize b k)
+      = v * 2 ^ (encLsh b k) := by
+  have hb : 1 ≤ b := by have := hr.hlsh; omega
+  have hs1 : 1 ≤ encSize b k := by
+    unfold encSize
+    exact (Nat.le_div_iff_mul_le (by omega)).mpr (by omega)
+  set l := List.replicate (encSize b k - 1) (0 : Int) ++ [v] with hl
+  have hlb : ∀ x ∈ l, |x| ≤ H := by
+    intro x hx
+    simp only [hl, List.mem_append, List.mem_replicate, List.mem_singleton] at hx
+    rcases hx with ⟨_, rfl⟩ | rfl
+    · simpa using hr.hH0
+    · exact hv
+  have h0 : |(0 : Int)| ≤ H + 3 := by have := hr.hH0; simp; linarith
+  obtain ⟨⟨q, hq⟩, hlen, hbal⟩ := finalTopRun_spec hr l hlb 0 h0
+  have hll : l.length = encSize b k := by simp [hl]; omega
+  have hval : valI b l = v := by
+    simp only [hl]; rw [valI_append, valI_replicate_zero, valI_singleton]; simp
+  unfold encodeCoefI64
+  simp only
+  rw [← hl, assignRun_eq hr l hlb]
+  have hbal0 : Balanced b 0 := by
+    have := two_pow_pos (b - 1); exact ⟨by linarith, this⟩
+  refine ⟨by simp [hlen, hll]; omega, ?_, q, ?_⟩
+  · intro d hd
+    rcases List.mem_append.mp hd with h | h
+    · exact hbal d h
+    · rw [(List.mem_replicate.mp h).2]; exact hbal0
+  · rw [List.take_left' (by rw [hlen, hll])]
+    rw [hll, hval] at hq
+    linarith
+
+example : ∃ q : Int, valI 5 ((encodeCoefI64 5 7 3 (-60)).take (encSize 5 7)) + q * 2 ^ (5 * encSize 5 7)
+    = -60 * 2 ^ (encLsh 5 7) :=
+  (encode_value (b := 5) (k := 7) (aSize := 3) (H := 2 ^ 40)
+    ⟨by norm_num, by decide, by norm_num, by norm_num, by norm_num⟩ (by norm_num) (by decide) (-60) (by norm_num)).2.2
+
+/-- frame of `encode_coeff_i64`: a coefficient other than `idx` keeps its value in every limb -/
+theorem encode_frame_coeff (c : Col) (idx : Nat) (l : List Int) (hl : l.length = c.length) (j i : Nat)
+    (hi : i ≠ idx) : ((setCoef c idx l).getD j []).getD i 0 = (c.getD j []).getD i 0 := by
+  unfold setCoef
+  simp only [List.getD_eq_getElem?_getD, List.getElem?_zipWith]
+  by_cases hj : j < c.length
+  · have hj' : j < l.length := by omega
+    simp [List.getElem?_eq_getElem hj, List.getElem?_eq_getElem hj', List.getElem?_set, hi.symm]
+  · have hj' : ¬ j < l.length := by omega
+    simp [List.getElem?_eq_none (Nat.le_of_not_lt hj), List.getElem?_eq_none (Nat.le_of_not_lt hj')]
+
+example : ((setCoef [[1, 2], [3, 4]] 0 [9, 8]).getD 1 []).getD 1 0 = 4 :=
+  encode_frame_coeff [[1, 2], [3, 4]] 0 [9, 8] rfl 1 1 (by decide)
+
+/-- frame of the container functions: a column other than `col` is untouched -/
+theorem encode_frame_column (v : List Col) (n b col k : Nat) (data : List Int) (w : List Col) (c : Nat)
+    (hc : c ≠ col) (h : encodeVecI64 v n b col k data = .ok w) : getCol w c = getCol v c := by
+  unfold encodeVecI64 at h
+  dsimp only at h
+  split at h
+  · cases h
+  · injection h with h
+    subst h
+    unfold getCol setCol
+    simp [List.getD_eq_getElem?_getD, List.getElem?_set, hc.symm]
+
+/-! ### recorded defects of the pinned code (negations on concrete witnesses) -/
+
+/-- `vec_znx_rsh` in the gap region (`⌈k/b⌉ > res_size`): `b = 3, a = [-4], k = 4` gives `[-2]` -/
+theorem rsh_value_counterexample :
+    ¬ TorusNear (valI 3 (rshCoef .overwrite 3 4 [-4] [0])) (3 * 1) (valI 3 [-4]) (3 * 1 + 4) := by
+  have h : rshCoef .overwrite 3 4 [-4] [0] = [-2] := by decide
+  rw [h]
+  rintro ⟨k, e, h1, h2⟩
+  simp [valI] at h1 h2
+  have := abs_le.mp h2
+  omega
+
+/-- `vec_znx_rsh_assign` with `⌈k/b⌉ = 2`: `b = 1, a = [0, 1]` (= 1/4), `k = 2` gives `[-1, 0]` (= 1/2)
+where `1/16` must round to `0` or `±1/4`. -/
+theorem rsh_assign_value_counterexample :
+    rshAssignCoef 1 2 0 [0, 1] = some [-1, 0] ∧
+    ¬ TorusNear (valI 1 [-1, 0]) (1 * 2) (valI 1 [0, 1]) (1 * 2 + 2) := by
+  refine ⟨by decide, ?_⟩
+  rintro ⟨k, e, h1, h2⟩
+  simp [valI] at h1 h2
+  have := abs_le.mp h2
+  omega
+
+/-- `vec_znx_rsh_assign` panics (index assertion) when `⌈k/b⌉ > size` -/
+theorem rsh_assign_panics_beyond_size : rshAssignCoef 1 2 0 [1] = none := by decide
+
+/-- NTT120 `vec_znx_big_normalize_sub_assign`, cross radix, negative offset:
+`rb = 25, res = [-2^24, -2^24], ab = 15, a = [2511], off = -45` gives `[-2^24 + 1, 2^24 - 2]`;
+the correct value is `res − a·2^-45 ≈ −1/2 − 2^-26`, the result is `≈ −1/2 + 1.5·2^-25`. -/
+theorem big_normalize_sub_cross_counterexample :
+    bigNormalizeAssignCoef128 .sub 25 (-45) 15 [2511] [-(2 ^ 24), -(2 ^ 24)] = some [-(2 ^ 24) + 1, 2 ^ 24 - 2] ∧
+    ¬ TorusNear (valI 25 [-(2 ^ 24) + 1, 2 ^ 24 - 2]) (25 * 2)
+        (valI 25 [-(2 ^ 24), -(2 ^ 24)] * 2 ^ 10 - 2511) (25 * 2 + 10) := by
+  refine ⟨by decide, ?_⟩
+  rintro ⟨k, e, h1, h2⟩
+  simp [valI] at h1 h2
+  have := abs_le.mp h2
+  omega
+
+/-! ### cross radix -/
+
+/-- **cross-radix `vec_znx_normalize`, partial**: when the offset shifts the whole input out
+(`res_start = 0` in the Rust) the output is exactly zero — the only case closed by proof; see the
+FULL STATEMENT at the top of the file. -/
+theorem normalize_cross_value_partial (rb rs ab : Nat) (off : Int) (a : List Int)
+    (h : clampNat ((a.length * ab : Nat) - (splitOffset ab off).2 * ab) (rs * rb) = 0) :
+    normalizeCrossCoef 64 .plain rb rs off ab a [] = some (List.replicate rs 0) := by
+  unfold normalizeCrossCoef
+  simp only [h]
+  simp
+
+example : normalizeCrossCoef 64 .plain 4 2 9 3 [1, 2, 3] [] = some [0, 0] :=
+  normalize_cross_value_partial 4 2 3 9 [1, 2, 3] (by decide)
+
 end C08
